@@ -2,8 +2,8 @@ import UmProofs.BrokerScaleCommitB
 /-!
 # C10 — a commit removes exactly the entry and its twin and preserves `CommitInv` (part C)
 -/
-namespace Um.Broker
-open Um Um.Slots
+namespace Um.Broker.Scale
+open Um Um.Slots Um.Broker
 
 theorem strip_migs (ranges : RangeList) (mm : MigMeta) (ch : Chunk) :
     (strip ranges mm ch).migs = ch.migs.filter (keepOf ranges mm) := by
@@ -196,4 +196,4 @@ theorem commitRes_migs {c : Cluster} (hfix : ∀ m ∈ c.migs, compact m.ranges 
     exact compactMig_of_fixed (hsub e he)
   rw [hcomp]; exact hperm1
 
-end Um.Broker
+end Um.Broker.Scale
